@@ -614,38 +614,11 @@ def simplify_boolean_expressions(source: str) -> str:
         operator = node.ops[0]
         comparator = node.comparators[0]
         try:
-            left = core.literal_value(node.left)
-            right = core.literal_value(comparator)
+            value = core.literal_value(node)
         except ValueError:
             if isinstance(operator, ast.Eq) and core.unparse(node.left) == core.unparse(comparator):
                 yield node, ast.Constant(value=True, kind=None)
 
-            continue
-
-        try:
-            if isinstance(operator, ast.Eq):
-                value = left == right
-
-            elif isinstance(operator, ast.NotEq):
-                value = left != right
-
-            elif isinstance(operator, ast.Gt):
-                value = left > right
-
-            elif isinstance(operator, ast.Lt):
-                value = left < right
-
-            elif isinstance(operator, ast.GtE):
-                value = left >= right
-
-            elif isinstance(operator, ast.LtE):
-                value = left <= right
-
-            else:
-                continue
-
-        except TypeError:
-            # Ill-typed comparison such as 1 < "a": it raises at runtime, so leave it alone.
             continue
 
         yield node, ast.Constant(value=value, kind=None)
